@@ -8,8 +8,11 @@
    State: the bulks on the scheduler queue (only the items flagged _SCHEDULE; the
    _CANCEL items which cancel_tasks also puts there concern the wait pool, which
    is RP.Sched.Model), the registered queues self._raptor_queues (name -> queue,
-   in dict order) and the backlog self._raptor_tasks (name -> uids, in dict
-   order; the wildcard name is a key like any other).
+   in dict order), the backlog self._raptor_tasks (name -> uids, in dict
+   order; the wildcard name is a key like any other), the component's cancel
+   list self._cancel_list (BaseComponent._control_cb appends the uids of every
+   cancel_tasks message before it calls control_cb; is_canceled removes one
+   occurrence) and the set self._raptor_gone of unregistered names.
    A task is sent to raptor when its description has a raptor_id, its mode is
    not RAPTOR_WORKER and it does not carry raptor_seen; everything else takes the
    normal scheduling path of the same drain (RP.Sched.Model), shown here as OSched.
@@ -65,22 +68,25 @@ Fixpoint zmem (u : Z) (l : list Z) : bool :=
 Record state := mkS {
   inq     : list (list task);       (* bulks on the scheduler queue, oldest first *)
   queues  : list (Z * Z);           (* registered raptor name -> queue (Putter) *)
-  backlog : list (Z * list Z)       (* raptor name -> uids waiting for that name *)
+  backlog : list (Z * list Z);      (* raptor name -> uids waiting for that name *)
+  clist   : list Z;                 (* self._cancel_list *)
+  gone    : list Z                  (* self._raptor_gone (a set: no repetitions, order immaterial) *)
 }.
-Definition init : state := mkS [] [] [].
+Definition init : state := mkS [] [] [] [] [].
 
 Inductive op :=
 | Arrive (bulk : list task)         (* work(tasks) *)
 | Drain                             (* _schedule_incoming() *)
 | Register (n q : Z)                (* a new Putter q is made on every registration *)
 | Unregister (n : Z)
-| Cancel (us : list Z).
+| Cancel (us : list Z).              (* _control_cb(cancel_tasks): register the uids, then control_cb *)
 
 Inductive out :=
 | OPut (q : Z) (us : list Z)        (* queue.put(list of tasks) *)
 | OPut1 (q : Z) (u : Z)             (* queue.put(task) *)
 | OFail (u : Z)                     (* _fail_task(task, RuntimeError('raptor gone')) *)
-| OCancel (us : list Z)             (* advance(to_cancel, CANCELED): one call, also for [] *)
+| OCancel (us : list Z)             (* control_cb: advance(to_cancel, CANCELED): one call, also for [] *)
+| OCancel1 (u : Z)                  (* is_canceled: advance(task, CANCELED) *)
 | OSched (us : list Z)              (* handled by the normal scheduling path of this drain *)
 | OWarn (n : Z).                    (* unregister of an unknown name *)
 
@@ -99,33 +105,59 @@ Fixpoint rr (qids : list Z) (idx : nat) (us : list Z) : list out :=
   | u :: r => OPut1 (nth (Nat.modulo idx (length qids)) qids 0) u :: rr qids (S idx) r
   end.
 
-Definition fwd_group (qs : list (Z * Z)) (bl : list (Z * list Z)) (n : Z) (us : list Z)
-  : list (Z * list Z) * list out :=
-  match alook n qs with
-  | Some q => (bl, [OPut q us])
-  | None =>
-      if negb (is_nil qs) && (n =? star)
-      then (bl, rr (map snd qs) 0 us)
-      else (aext n us bl, [])
+(* matches = ...; remove1: list.remove *)
+Fixpoint remove1 (u : Z) (l : list Z) : list Z :=
+  match l with [] => [] | x :: r => if x =? u then r else x :: remove1 u r end.
+
+(* tasks = [task for task in to_raptor[name] if self.is_canceled(task) is not True]
+   is_canceled: uid not on the cancel list -> False; else advance CANCELED,
+   remove ONE occurrence of the uid, True *)
+Fixpoint sift (cl us : list Z) : list Z * list Z * list out :=
+  match us with
+  | [] => ([], cl, [])
+  | u :: r =>
+      if zmem u cl
+      then let '(k, cl', o) := sift (remove1 u cl) r in (k, cl', OCancel1 u :: o)
+      else let '(k, cl', o) := sift cl r in (u :: k, cl', o)
   end.
 
-Fixpoint fwd_groups (qs : list (Z * Z)) (bl : list (Z * list Z)) (g : list (Z * list Z))
-  : list (Z * list Z) * list out :=
+(* one raptor name of this drain, under the lock *)
+Definition fwd_group (qs : list (Z * Z)) (gn : list Z) (bl : list (Z * list Z)) (cl : list Z) (n : Z) (us : list Z)
+  : list (Z * list Z) * list Z * list out :=
+  let '(k, cl', o0) := sift cl us in
+  if is_nil k then (bl, cl', o0)                       (* if not tasks: continue *)
+  else
+    match alook n qs with
+    | Some q => (bl, cl', o0 ++ [OPut q k])
+    | None =>
+        if negb (is_nil qs) && (n =? star)
+        then (bl, cl', o0 ++ rr (map snd qs) 0 k)
+        else if zmem n gn
+        then (bl, cl', o0 ++ map OFail k)               (* that master unregistered: 'raptor gone' *)
+        else (aext n k bl, cl', o0)
+    end.
+
+Fixpoint fwd_groups (qs : list (Z * Z)) (gn : list Z) (bl : list (Z * list Z)) (cl : list Z) (g : list (Z * list Z))
+  : list (Z * list Z) * list Z * list out :=
   match g with
-  | [] => (bl, [])
+  | [] => (bl, cl, [])
   | (n, us) :: r =>
-      let '(bl1, o1) := fwd_group qs bl n us in
-      let '(bl2, o2) := fwd_groups qs bl1 r in
-      (bl2, o1 ++ o2)
+      let '(bl1, cl1, o1) := fwd_group qs gn bl cl n us in
+      let '(bl2, cl2, o2) := fwd_groups qs gn bl1 cl1 r in
+      (bl2, cl2, o1 ++ o2)
   end.
 
 Definition drain (s : state) : state * list out :=
   let ts := concat (inq s) in
-  let '(bl, o) := fwd_groups (queues s) (backlog s) (collect ts) in
-  (mkS [] (queues s) bl, o ++ (if is_nil (normal ts) then [] else [OSched (normal ts)])).
+  let '(bl, cl, o) := fwd_groups (queues s) (gone s) (backlog s) (clist s) (collect ts) in
+  (mkS [] (queues s) bl cl (gone s), o ++ (if is_nil (normal ts) then [] else [OSched (normal ts)])).
 
 (* ---------------- control_cb ---------------- *)
 (* `if key in self._raptor_tasks: tasks = ...; del ...; self._raptor_queues[name].put(tasks)` *)
+(* set.add / set.discard *)
+Definition gadd (n : Z) (g : list Z) : list Z := if zmem n g then g else g ++ [n].
+Definition gdel (n : Z) (g : list Z) : list Z := filter (fun m => negb (m =? n)) g.
+
 Definition relay_key (q k : Z) (bl : list (Z * list Z)) : list (Z * list Z) * list out :=
   match alook k bl with
   | Some us => (adel k bl, [OPut q us])
@@ -135,7 +167,7 @@ Definition relay_key (q k : Z) (bl : list (Z * list Z)) : list (Z * list Z) * li
 Definition register (s : state) (n q : Z) : state * list out :=
   let '(b1, o1) := relay_key q n (backlog s) in
   let '(b2, o2) := relay_key q star b1 in
-  (mkS (inq s) (aset n q (queues s)) b2, o1 ++ o2).
+  (mkS (inq s) (aset n q (queues s)) b2 (clist s) (gdel n (gone s)), o1 ++ o2).
 
 Definition unregister (s : state) (n : Z) : state * list out :=
   let '(qs, o1) := match alook n (queues s) with
@@ -146,12 +178,11 @@ Definition unregister (s : state) (n : Z) : state * list out :=
                    | Some us => (adel n (backlog s), map OFail us)
                    | None => (backlog s, [])
                    end in
-  (mkS (inq s) qs bl, o1 ++ o2).
+  (mkS (inq s) qs bl (clist s) (gadd n (gone s)), o1 ++ o2).
 
-(* matches = [t for t in backlog if t['uid'] in uids]; for task in matches: backlog.remove(task) *)
+(* _control_cb: self._cancel_list += uids; then control_cb:
+   matches = [t for t in backlog if t['uid'] in uids]; for task in matches: backlog.remove(task) *)
 Definition matches (us l : list Z) : list Z := filter (fun u => zmem u us) l.
-Fixpoint remove1 (u : Z) (l : list Z) : list Z :=
-  match l with [] => [] | x :: r => if x =? u then r else x :: remove1 u r end.
 Definition strike (ms l : list Z) : list Z := fold_left (fun acc u => remove1 u acc) ms l.
 
 Fixpoint cancel_walk (us : list Z) (bl : list (Z * list Z)) : list (Z * list Z) * list Z :=
@@ -165,12 +196,12 @@ Fixpoint cancel_walk (us : list Z) (bl : list (Z * list Z)) : list (Z * list Z) 
 
 Definition cancel (s : state) (us : list Z) : state * list out :=
   let '(bl, c) := cancel_walk us (backlog s) in
-  (mkS (inq s) (queues s) bl, [OCancel c]).
+  (mkS (inq s) (queues s) bl (clist s ++ us) (gone s), [OCancel c]).
 
 (* ---------------- histories ---------------- *)
 Definition step (s : state) (o : op) : state * list out :=
   match o with
-  | Arrive b => (mkS (inq s ++ [b]) (queues s) (backlog s), [])
+  | Arrive b => (mkS (inq s ++ [b]) (queues s) (backlog s) (clist s) (gone s), [])
   | Drain => drain s
   | Register n q => register s n q
   | Unregister n => unregister s n
